@@ -238,9 +238,8 @@ def rule_neutralise(ctx, repo, models):
     ok = Q.has("self.dae.g[self.Bus.islanded_a] = 0.0", g.fn) and Q.has("self.dae.g[self.Bus.islanded_v] = 0.0", g.fn)
     ctx.check(ok, "C12.neutralise", "System.g_islands", "P and Q rows of isolated buses zeroed", "g_islands no longer zeroes both rows", g.W())
     j = F.method(repo, "System", "j_islands", SYSTEM)
-    t = j.text()
-    ok = "self.dae.gy.ipset(self.config.diag_eps, aidx, aidx)" in t and "self.dae.gy.ipset(self.config.diag_eps, vidx, vidx)" in t \
-        and "self.dae.gy.ipset(0.0, aidx, vidx)" in t and "self.dae.gy.ipset(0.0, vidx, aidx)" in t
+    ok = all(Q.has(pt, j.fn) for pt in ("self.dae.gy.ipset(self.config.diag_eps, aidx, aidx)", "self.dae.gy.ipset(self.config.diag_eps, vidx, vidx)",
+                                        "self.dae.gy.ipset(0.0, aidx, vidx)", "self.dae.gy.ipset(0.0, vidx, aidx)"))
     ctx.check(ok, "C12.neutralise", "System.j_islands", "diagonals of isolated buses set to diag_eps, cross terms cleared",
               "Jacobian patch for isolated buses changed", j.W())
     c = F.method(repo, "System", "connectivity", SYSTEM)
